@@ -268,14 +268,6 @@ class IsWrapperCall:
     def value(node):
         return is_wrapper_call(node)
 
-    def lemmas_recognised_wrapper_is_documented(node):
-        return wrapper_names_sound(node.children)
-
-    def ensures_recognised_wrapper_is_documented(node, result):
-        # finding-adjusted (C17-wrapper-call-shapes): never exempts a non-wrapper; exact for plain / scoped callees
-        return implies(result, doc_is_wrapper_call(node)) and \
-            implies(plain_callee_shapes(node), result == doc_is_wrapper_call(node))
-
 
 @contract(F + "_is_inside_blocking_wrapper", props=["C17"], types=dict(node=TSNode, current=TSNode), returns=Bool)
 class IsInsideBlockingWrapper:
@@ -294,46 +286,45 @@ class IsInsideBlockingWrapper:
 
 # documented notion of "a spawn_blocking / block_in_place-style wrapper": a call whose called function is NAMED
 # asyncify / spawn_blocking / block_in_place, however the callee is written
-def callee_names_wrapper(f):
+def simple_callee_names_wrapper(f):
     if f.type == "identifier":
         return text_is_wrapper(f)
     if f.type == "scoped_identifier":
         return scoped_is_wrapper(f)
     if f.type == "field_expression":            # receiver.spawn_blocking(..)
         return field_ident_text(f) in WRAPPERS
-    if f.type == "generic_function":            # spawn_blocking::<F, R>(..)
-        return any(child_is_wrapper_name(g) or (g.type == "field_expression" and field_ident_text(g) in WRAPPERS)
-                   for g in f.children)
     return False
+
+
+def callee_names_wrapper(f):
+    if f.type == "generic_function":            # spawn_blocking::<F, R>(..): the function is the first child
+        return len(f.children) > 0 and simple_callee_names_wrapper(f.children[0])
+    return simple_callee_names_wrapper(f)
 
 
 def doc_is_wrapper_call(n):
     return n.type == "call_expression" and any(callee_names_wrapper(child) for child in n.children)
 
 
-@lemma(props=["C17"], types=dict(node=TSNode), name="wrapper-call-as-documented")
-def wrapper_call_as_documented(node):
-    """Expected to fail (known finding C17-wrapper-call-shapes): method-call and turbofish forms are not recognised."""
-    if node is None or len(node.children) != 1 or len(node.children[0].children) > 1:
-        return True     # small trees are enough to exhibit the deviation (keeps the refutation a finite unfolding)
-    return call(F + "_is_wrapper_call", node) == doc_is_wrapper_call(node)
-
-
-def plain_callee_shapes(n):
-    return all(child.type != "field_expression" and child.type != "generic_function" for child in n.children)
-
-
-@lemma(props=["C17"], types=dict(s=SeqOf(TSNode)), name="recognised-wrapper-names-are-documented")
-def wrapper_names_sound(s):
-    """By induction over the children of a call: a recognised wrapper name is a documented one; the converse holds
-    when no child is a method-call (field_expression) or turbofish (generic_function) callee."""
-    if len(s) == 0:
+@lemma(props=["C17"], types=dict(callee=TSNode), name="wrapper-call-as-documented")
+def wrapper_call_as_documented(callee):
+    """Property text: "not inside a spawn_blocking/block_in_place-style wrapper" -- the callee of a call names a wrapper
+    however it is written. Expected to fail (known finding C17-wrapper-call-shapes): method-call (`h.spawn_blocking(..)`)
+    and turbofish (`spawn_blocking::<..>(..)`) callees are not recognised by _child_is_wrapper_name."""
+    if callee is None:
         return True
-    ih(wrapper_names_sound, s[1:])
-    code = any(child_is_wrapper_name(child) for child in s)
-    doc = any(callee_names_wrapper(child) for child in s)
-    plain = all(child.type != "field_expression" and child.type != "generic_function" for child in s)
-    return implies(code, doc) and implies(plain, code == doc)
+    return call(F + "_child_is_wrapper_name", callee) == callee_names_wrapper(callee)
+
+
+@lemma(props=["C17"], types=dict(callee=TSNode), name="wrapper-call-as-documented-adjusted")
+def wrapper_call_as_documented_adjusted(callee):
+    """Finding-adjusted: a recognised wrapper name IS a documented one (no non-wrapper is ever exempted), and the two
+    notions coincide for every callee that is not a method call (field_expression) or turbofish (generic_function)."""
+    if callee is None:
+        return True
+    r = call(F + "_child_is_wrapper_name", callee)
+    return implies(r, callee_names_wrapper(callee)) and \
+        implies(callee.type != "field_expression" and callee.type != "generic_function", r == callee_names_wrapper(callee))
 
 
 # ------------------------------------------------------------------ one call node
@@ -560,7 +551,7 @@ class BlockingCheck:
 
     def ensures_one_violation_per_reportable_call_in_document_order(self, context, result):
         return implies(analyzed(context, self._config_override) and self._analyzer.tree_sitter_available
-                       and rust_root(context.file_content) is not None,
+                       and rust_root(context.file_content or "") is not None,
                        result == [blocking_violation(call, reported_path(context))
-                                  for call in collect_blocking(rust_root(context.file_content), context.file_content)
+                                  for call in collect_blocking(rust_root(context.file_content or ""), context.file_content or "")
                                   if not skipped(call, self._config_override)])
